@@ -159,6 +159,52 @@ func fromGo(x interface{}) (*bv, error) {
 	return nil, fmt.Errorf("unexpected decoded type %T", x)
 }
 
+// c19ForceRep, when >= 0, fixes the Go type used for the next integer node.
+var c19ForceRep = -1
+
+// c19IntRep renders z as the Go type number choice, if that type can hold it.
+func c19IntRep(rng *rand.Rand, z int64, choice int) (interface{}, bool) {
+	switch choice {
+	case 0:
+		return int(z), true
+	case 2:
+		if z >= math.MinInt32 && z <= math.MaxInt32 {
+			return int32(z), true
+		}
+	case 3:
+		if z >= math.MinInt16 && z <= math.MaxInt16 {
+			return int16(z), true
+		}
+	case 4:
+		if z >= 0 {
+			return uint(z), true
+		}
+	case 5:
+		if z >= 0 {
+			return uint64(z), true
+		}
+	case 6:
+		if z >= 0 && z <= math.MaxUint32 {
+			return uint32(z), true
+		}
+	case 7:
+		if z >= 0 && z <= math.MaxUint16 {
+			return uint16(z), true
+		}
+	case 8: // a Duration is written as whole seconds, truncated toward zero
+		if z > -9000000000 && z < 9000000000 {
+			r := rng.Int63n(1000000000)
+			if z < 0 || (z == 0 && rng.Intn(2) == 0) {
+				r = -r
+			}
+			return time.Duration(z*1000000000 + r), true
+		}
+	default:
+		return z, true
+	}
+	return nil, false
+}
+
 // toGo picks, for every node, one of the Go types the encoder's type switch
 // supports for that kind of value.
 func toGo(rng *rand.Rand, v *bv) interface{} {
@@ -173,45 +219,12 @@ func toGo(rng *rand.Rand, v *bv) interface{} {
 			return u
 		}
 		for {
-			switch rng.Intn(10) {
-			case 0:
-				return int(z)
-			case 1:
-				return z
-			case 2:
-				if z >= math.MinInt32 && z <= math.MaxInt32 {
-					return int32(z)
-				}
-			case 3:
-				if z >= math.MinInt16 && z <= math.MaxInt16 {
-					return int16(z)
-				}
-			case 4:
-				if z >= 0 {
-					return uint(z)
-				}
-			case 5:
-				if z >= 0 {
-					return uint64(z)
-				}
-			case 6:
-				if z >= 0 && z <= math.MaxUint32 {
-					return uint32(z)
-				}
-			case 7:
-				if z >= 0 && z <= math.MaxUint16 {
-					return uint16(z)
-				}
-			case 8: // a Duration is written as whole seconds, truncated toward zero
-				if z > -9000000000 && z < 9000000000 {
-					r := rng.Int63n(1000000000)
-					if z < 0 || (z == 0 && rng.Intn(2) == 0) {
-						r = -r
-					}
-					return time.Duration(z*1000000000 + r)
-				}
-			default:
-				return z
+			choice := rng.Intn(10)
+			if c19ForceRep >= 0 {
+				choice, c19ForceRep = c19ForceRep, -1
+			}
+			if x, ok := c19IntRep(rng, z, choice); ok {
+				return x
 			}
 		}
 	case 1:
@@ -414,9 +427,13 @@ func c19Child() {
 
 // ---------------------------------------------------------------- cases
 
-func c19Round(o *Out, kind string, v *bv, repseed int64) {
-	in := map[string]interface{}{"t": "round", "tree": v.js(), "rep": repseed}
+func c19Round(o *Out, kind string, v *bv, repseed int64) { c19RoundF(o, kind, v, repseed, -1) }
+
+func c19RoundF(o *Out, kind string, v *bv, repseed int64, force int) {
+	in := map[string]interface{}{"t": "round", "tree": v.js(), "rep": repseed, "force": force}
+	c19ForceRep = force
 	gv := toGo(rand.New(rand.NewSource(repseed)), v)
+	c19ForceRep = -1
 	var enc []byte
 	var merr error
 	func() {
@@ -476,7 +493,11 @@ func c19Seq(o *Out, kind string, input []byte) {
 				return
 			}
 			vals = append(vals, v.coq())
-			jvals = append(jvals, v.js())
+			if dp := v.depth(); dp <= 40 {
+				jvals = append(jvals, v.js())
+			} else {
+				jvals = append(jvals, map[string]interface{}{"val_depth": dp})
+			}
 		}
 		final = "OMore"
 	}()
@@ -500,7 +521,11 @@ func c19Enc(o *Out, kind string, u uint64, repseed int64) {
 func c19Replay(o *Out, in map[string]interface{}) error {
 	switch jStr(in["t"]) {
 	case "round":
-		c19Round(o, "replay", bvFromJS(in["tree"]), jInt(in["rep"]))
+		force := -1
+		if f, ok := in["force"]; ok {
+			force = int(jInt(f))
+		}
+		c19RoundF(o, "replay", bvFromJS(in["tree"]), jInt(in["rep"]), force)
 	case "dec":
 		c19Dec(o, "replay", unhx(in["input"]))
 	case "seq":
@@ -714,7 +739,14 @@ func c19Stream(o *Out, rng *rand.Rand, n int) {
 	big := 100000
 	// ---- corpus: boundary values
 	for _, z := range c19IntEdges {
-		c19Round(o, "corpus-int", bInt(z), rng.Int63())
+		for rep := 0; rep <= 9; rep++ { // every Go integer type that can hold the value
+			if rep == 1 {
+				continue
+			}
+			if _, ok := c19IntRep(rng, z, rep); ok {
+				c19RoundF(o, "corpus-int", bInt(z), rng.Int63(), rep)
+			}
+		}
 	}
 	for _, l := range []int{0, 1, 9, 10, 11, 99, 100, 101, 999, 1000, 4089, 4090, 4091, 4092, 4095, 4096, 4097, 8191, 8192, 8193, 65535, 65536, 99999, 100000} {
 		c19Round(o, "corpus-string", bStr(c19RandBytes(rng, l)), rng.Int63())
